@@ -203,7 +203,8 @@ def concretise(prog, pid, rnd, opts):
         if cr["mode"] == "raw":
             crep = dict(mode="raw", status=0, reason="", hex=hx(raw_reply(cr, "proxy")), cut=-1, rep=1)
         elif cr["mode"] == "status":
-            crep = dict(mode="status", status=cr["status"], reason=cr.get("reason", "Some Reason"), hex="", cut=-1,
+            # refusal status lines with and without a reason phrase ("-" = bare "HTTP/1.1 407")
+            crep = dict(mode="status", status=cr["status"], reason=cr.get("reason", rnd.choice(["Some Reason", "-", "Proxy Authentication Required", "-"])), hex="", cut=-1,
                         rep=cr.get("rep", 5))
         else:
             crep = dict(mode=cr["mode"], status=200, reason="", hex="", cut=-1, rep=0)
